@@ -26,6 +26,9 @@ type c15lExp struct {
 	honourCtx                         bool           // Shutdown / ForceFlush report an ended context (after doing their work)
 	provDown                          *bool          // (concurrent drivers) a provider Shutdown has returned nil
 	afterProvDown                     int            // Export calls that started after that
+	slow                              bool           // Export has a scheduling point: the export takes time
+	inflight                          int            // Export calls that have not returned
+	shutDuringExport                  int            // Shutdown calls that arrived while an Export was running
 }
 
 func (e *c15lExp) Export(_ context.Context, rs []Record) error {
@@ -42,10 +45,18 @@ func (e *c15lExp) Export(_ context.Context, rs []Record) error {
 	if e.shuts > 0 {
 		e.afterSD += len(rs)
 	}
+	if e.slow {
+		e.inflight++
+		sched.Yield("export-in-flight", e)
+		e.inflight--
+	}
 	return nil
 }
 func (e *c15lExp) Shutdown(ctx context.Context) error {
 	e.shuts++
+	if e.inflight > 0 {
+		e.shutDuringExport++
+	}
 	if e.honourCtx {
 		return ctx.Err()
 	}
@@ -257,6 +268,9 @@ func c15lConc(variant string, threads [][]string, res *string) func(x *sched.Exe
 			proc = NewSimpleProcessor(exp)
 		case "batch(E)":
 			proc = NewBatchProcessor(exp, WithMaxQueueSize(2), WithExportMaxBatchSize(1))
+		case "batch(Eslow)":
+			exp.slow = true
+			proc = NewBatchProcessor(exp, WithMaxQueueSize(2), WithExportMaxBatchSize(1))
 		}
 		provDown := false
 		exp.provDown = &provDown
@@ -274,6 +288,9 @@ func c15lConc(variant string, threads [][]string, res *string) func(x *sched.Exe
 						if lp.Shutdown(context.Background()) == nil {
 							nilSD[ti]++
 							provDown = true
+							if exp.inflight > 0 {
+								x.Fail("C15|export-still-running-when-Shutdown-returned|logs|concurrent", "LoggerProvider.Shutdown returned nil while %d Export call(s) had not returned", exp.inflight)
+							}
 						}
 					case "Flush":
 						_ = lp.ForceFlush(context.Background())
@@ -301,6 +318,9 @@ func c15lConc(variant string, threads [][]string, res *string) func(x *sched.Exe
 		}
 		if anyNil > 0 && n != 1 {
 			x.Fail("C15|not-shut-down-after-successful-Shutdown|logs|concurrent", "a LoggerProvider.Shutdown returned nil, the %s was shut down %d times", map[bool]string{true: "processor", false: "exporter"}[variant == "rec"], n)
+		}
+		if exp.shutDuringExport > 0 {
+			x.Fail("C15|exporter-shut-down-during-an-export|logs|concurrent", "the exporter's Shutdown was called while an Export call was running (%d times)", exp.shutDuringExport)
 		}
 		if exp.afterProvDown > 0 {
 			x.Fail("C15|export-after-Shutdown-returned|logs|concurrent", "%d Export call(s) started after a LoggerProvider.Shutdown had returned nil", exp.afterProvDown)
@@ -330,6 +350,7 @@ func TestVerifC15Log(t *testing.T) {
 		{"Y1-shutdown-shutdown-emit", "rec", [][]string{{"Shutdown"}, {"Shutdown"}, {"Emit"}}, 2, 0},
 		{"Y2-shutdown-flush-emit", "batch(E)", [][]string{{"Shutdown"}, {"Flush"}, {"Emit"}}, 1, 0},
 		{"Y3-shutdown-emitnew", "simple(E)", [][]string{{"Shutdown"}, {"EmitNew"}, {"Emit"}}, 2, 0},
+		{"Y4-slow-export-emit-shutdown", "batch(Eslow)", [][]string{{"Emit", "Shutdown"}}, 2, 0}, // the export goroutine holds a batch while Shutdown runs
 	}
 	for _, c := range concs {
 		jobs = append(jobs, "conc/"+c.name)
